@@ -35,6 +35,10 @@ pub struct DpSchema {
     /// users.id is not declared UNIQUE (the data are unique all the same)
     #[serde(default)]
     pub id_not_declared_unique: bool,
+    /// a fourth level: items get a unique iid and a table lines(iid -> items.iid, z) hangs below them, so that the
+    /// privacy unit of lines is reached through a foreign-key path of three steps
+    #[serde(default)]
+    pub chain: bool,
     pub row_picks: Vec<u16>,
 }
 
@@ -73,7 +77,10 @@ impl DpSchema {
             cols: vec![
                 ColSpec { name: "oid".into(), ty: ColTy::Int(1, no.max(1) + if self.dangling { 1 } else { 0 }), nullable: false, unique: false },
                 ColSpec { name: "y".into(), ty: self.y.clone(), nullable: false, unique: false },
-            ],
+            ]
+            .into_iter()
+            .chain(if self.chain { vec![ColSpec { name: "iid".into(), ty: ColTy::Int(1, (self.n_items as i64).max(1)), nullable: false, unique: true }] } else { vec![] })
+            .collect(),
             // without orders every item would be an orphan
             nrows: if self.n_orders == 0 && !self.dangling { 0 } else { self.n_items },
             undeclared_unique: vec![],
@@ -89,12 +96,25 @@ impl DpSchema {
             undeclared_unique: vec![],
             foreign_keys: vec![],
         };
-        DbSpec { tables: vec![users, orders, items, public], row_picks: self.row_picks.clone() }
+        let mut tables = vec![users, orders, items, public];
+        if self.chain {
+            tables.push(TableSpec {
+                name: "lines".into(),
+                cols: vec![
+                    ColSpec { name: "iid".into(), ty: ColTy::Int(1, (self.n_items as i64).max(1)), nullable: false, unique: false },
+                    ColSpec { name: "z".into(), ty: ColTy::Int(0, 9), nullable: false, unique: false },
+                ],
+                nrows: if self.n_items == 0 || self.n_orders == 0 { 0 } else { self.n_items.min(8) },
+                undeclared_unique: vec![],
+                foreign_keys: vec![],
+            });
+        }
+        DbSpec { tables, row_picks: self.row_picks.clone() }
     }
 
     pub fn privacy_unit(&self) -> PrivacyUnit {
         let row = PrivacyUnit::privacy_unit_row();
-        let v: Vec<(&str, Vec<(&str, &str, &str)>, &str)> = match self.pu_variant % 4 {
+        let mut v: Vec<(&str, Vec<(&str, &str, &str)>, &str)> = match self.pu_variant % 4 {
             0 => vec![
                 ("users", vec![], "id"),
                 ("orders", vec![("uid", "users", "id")], "id"),
@@ -104,17 +124,28 @@ impl DpSchema {
             2 => vec![("orders", vec![], row), ("users", vec![], "id")],
             _ => vec![("users", vec![], "id"), ("orders", vec![("uid", "users", "id")], "id")],
         };
+        if self.chain {
+            match self.pu_variant % 4 {
+                0 => v.push(("lines", vec![("iid", "items", "iid"), ("oid", "orders", "oid"), ("uid", "users", "id")], "id")),
+                1 => v.push(("lines", vec![("iid", "items", "iid"), ("oid", "orders", "oid")], "uid")),
+                _ => {}
+            }
+        }
         PrivacyUnit::from((v, self.hash))
     }
 
     /// which tables are protected under this variant
     pub fn protected(&self) -> Vec<&'static str> {
-        match self.pu_variant % 4 {
+        let mut v = match self.pu_variant % 4 {
             0 => vec!["users", "orders", "items"],
             1 => vec!["orders", "items"],
             2 => vec!["orders", "users"],
             _ => vec!["users", "orders"],
+        };
+        if self.chain && self.pu_variant % 4 < 2 {
+            v.push("lines");
         }
+        v
     }
 
     /// owner (privacy unit value as text) of every row of every table, None = not protected / no owner (dangling)
@@ -156,6 +187,24 @@ impl DpSchema {
                 .collect(),
         );
         out.push(rows[3].iter().map(|_| None).collect());
+        if self.chain && rows.len() > 4 {
+            // lines -> items (iid, last column of items) -> orders -> owner
+            out.push(
+                rows[4]
+                    .iter()
+                    .map(|r| {
+                        if self.pu_variant % 4 >= 2 {
+                            return None;
+                        }
+                        let iid = cell(&r[0])?;
+                        let it = rows[2].iter().find(|i| i.last().and_then(|c| cell(c)).as_ref() == Some(&iid))?;
+                        let oid = cell(&it[0])?;
+                        let o = rows[1].iter().find(|o| cell(&o[0]).as_ref() == Some(&oid))?;
+                        order_owner(o)
+                    })
+                    .collect(),
+            );
+        }
         out
     }
 }
@@ -193,7 +242,8 @@ pub fn schema_strategy(max_users: u8, max_orders: u8) -> BoxedStrategy<DpSchema>
             kind.sort();
             kind.dedup();
             let id_not_declared_unique = row_picks.first().map_or(false, |p| p % 3 == 0);
-            DpSchema { n_users, n_orders, n_items, x, x_nullable, a, y, g, kind, pk_hi, pu_variant, hash, dangling, id_not_declared_unique, row_picks }
+            let chain = row_picks.get(1).map_or(false, |p| p % 10 < 3);
+            DpSchema { n_users, n_orders, n_items, x, x_nullable, a, y, g, kind, pk_hi, pu_variant, hash, dangling, id_not_declared_unique, chain, row_picks }
         })
         .boxed()
 }
